@@ -30,6 +30,7 @@ var table = map[string]struct {
 	"C14": {"fault_enumeration", checks.C14},
 	"C15": {"fault_enumeration", checks.C15},
 	"C16": {"model_checking", checks.C16},
+	"C17": {"model_checking", checks.C17},
 	"C18": {"model_checking", checks.C18},
 	"C19": {"model_checking", checks.C19},
 	"C20": {"fault_enumeration", checks.C20},
